@@ -353,10 +353,13 @@ def run(ctx):
             for n_, v_ in special + [(rng.choice(names), rng.choice(pool)) for _ in range(25 if quick else 400)]:
                 ctx.case(('active', tuple(dp or ()), n_, v_))
                 try:
-                    per = {q_: P.validateWithProfile(n_, v_, profiles=[q_])[:2] == (True, True) for q_ in allp}
+                    # a declaration is validated on its normalised value text (e.g. .5in -> 0.5in): the reference too
+                    pv_ = cssutils.css.Property(n_, v_).propertyValue
+                    vn_ = pv_.cssText if pv_ is not None and pv_.cssText else v_
+                    per = {q_: P.validateWithProfile(n_, vn_, profiles=[q_])[:2] == (True, True) for q_ in allp}
                     ref_active = any(per[q_] for q_ in active)
                     ref_any = any(per.values())
-                    got = {'validateWithProfile': P.validateWithProfile(n_, v_)[:2], 'validate': P.validate(n_, v_),
+                    got = {'validateWithProfile': P.validateWithProfile(n_, vn_)[:2], 'validate': P.validate(n_, vn_),
                            'constructed': cssutils.css.Property(n_, v_).valid}
                     sh = cssutils.parseString('a{%s:%s}' % (n_, v_))
                     ps = sh.cssRules[0].style.getProperties(all=True) if sh.cssRules.length else []
